@@ -34,6 +34,7 @@ WellFormed(i) ==
   /\ \A k \in 1..Len(p.onopen) : p.onopen[k].wellformed
   /\ \A k \in 1..Len(p.onclose) : p.onclose[k].wellformed
   /\ p.mergeok
+  /\ p.unknownkeys = <<>>         \* every key of the file is one the loader takes (a misspelt key is dropped without a word)
 AllWellFormed == \A i \in 1..Len(Defs) : WellFormed(i)
 Static == [bad |-> SelectSeq([i \in 1..Len(Defs) |-> IF WellFormed(i) THEN <<>> ELSE <<Defs[i].name, Defs[i].variant>>], LAMBDA x : x # <<>>)]
 
